@@ -388,4 +388,5 @@ func genC02(g *core.Gen) {
 		g.Emit(in, append(qg.tags, "rule="+r.name)...)
 	}
 	genC02Union(g, g.Scale(1500, 12000))
+	genC02Join(g, g.Scale(2000, 15000))
 }
